@@ -144,6 +144,16 @@ def build_ops(dadi):
     def scramble(r):
         sh = [(4, 8), (8, 4), (5, 7), (3, 4, 7)][int(r.integers(4))]
         return fs_rand(r, sh).scramble_pop_ids()
+    @op
+    def from_phi_altgrid(r):
+        # same lengths and sample sizes as from_phi_2d / from_phi_3d / inbreeding, but differently spaced grids (same end points)
+        d = int(r.choice([2, 3])); pts = {2: 16, 3: 10}[d]
+        kind = int(r.integers(3))
+        xx = [dadi.Numerics.default_grid(pts, crwd=2.), np.linspace(0, 1, pts), dadi.Numerics.default_grid(pts, crwd=12.)][kind]
+        phi = dadi.PhiManip.phi_1D(xx); phi = dadi.PhiManip.phi_1D_to_2D(xx, phi)
+        if d == 3: phi = dadi.PhiManip.phi_2D_to_3D_split_2(xx, phi)
+        ns = (4, 5) if d == 2 else (3, 3, 4)
+        return dadi.Spectrum.from_phi(phi, ns, tuple([xx] * d))
     return ops
 
 def cache_soundness(dadi):
